@@ -82,7 +82,7 @@ def run(rep):
              'functions on a class under vtype c described with imlevel=1, '
              'bound methods through fromMethod, other functions imlevel 0; '
              '_incompat(required, implemented) argument order; missing '
-             'attribute -> BrokenImplementation', floor=8)
+             'attribute -> BrokenImplementation', floor=7)
     rep.rule('R17.4', 'the verified view is namesAndDescriptions(all=True) and '
              'that accessor follows __iro__ (C15 R15.1)', floor=2)
     rep.decline('the "cannot be introspected" cases of _verify_element '
@@ -107,98 +107,18 @@ def run(rep):
     specsem.verify_collects(rep, mod, 'R17.2', 'R17.3')
     vc = find_def(mod, 'verifyClass')
     vo = find_def(mod, 'verifyObject')
-    rep.check('R17.3', 'verify.verifyClass',
-              bool(find_all(vc, "_verify(iface, candidate, tentative, vtype='c')")),
-              "verifyClass -> vtype 'c'", construct='vtype', node=vc)
-    rep.check('R17.3', 'verify.verifyObject',
-              bool(find_all(vo, "_verify(iface, candidate, tentative, vtype='o')")),
-              "verifyObject -> vtype 'o'", construct='vtype', node=vo)
-    e = find_def(mod, '_verify_element')
-    # missing attribute
-    trys = [n for n in e.body if isinstance(n, ast.Try)]
-    ok = bool(trys) and match('attr = getattr(candidate, name)', trys[0].body[0], 'exec') \
-        is not None and len(trys[0].handlers) == 1 and \
-        dotted(trys[0].handlers[0].type) == 'AttributeError'
-    if ok:
-        hb = trys[0].handlers[0].body
-        g = [n for n in hb if isinstance(n, ast.If)]
-        ok = len(g) == 1 and match("not isinstance(desc, Method) and vtype == 'c'",
-                                   g[0].test) is not None and \
-            any(isinstance(s, ast.Return) for s in g[0].body)
-        rs = [n for n in hb if isinstance(n, ast.Raise)]
-        ok = ok and len(rs) == 1 and match(
-            'BrokenImplementation(iface, desc, candidate)', rs[0].exc) is not None
-    rep.check('R17.3', 'verify._verify_element', ok,
-              'missing attribute -> BrokenImplementation (only non-method '
-              'attributes of classes are excused)', construct='missing', node=e)
-    # description of the implementation
-    fns = find_all(e, 'fromFunction($$a)')
-    okf = len(fns) == 2
-    det = [norm_src(c) for c, _ in fns]
-    if okf:
-        lvl1 = [c for c, _ in fns if match(
-            'fromFunction(attr, iface, name=name, imlevel=1)', c) is not None]
-        lvl0 = [c for c, _ in fns if match(
-            'fromFunction(attr, iface, name=name)', c) is not None]
-        okf = len(lvl1) == 1 and len(lvl0) == 1
-        if okf:
-            g = shared.stmt_of(lvl1[0]).parent
-            okf = isinstance(g, ast.If) and match(
-                "isinstance(candidate, type) and vtype == 'c'", g.test) is not None \
-                and shared.stmt_of(lvl1[0]) in g.body and shared.stmt_of(lvl0[0]) in g.orelse
-            gg = g.parent
-            okf = okf and isinstance(gg, ast.If) and match(
-                'isinstance(attr, FunctionType)', gg.test) is not None
-    rep.check('R17.3', 'verify._verify_element', okf,
-              'plain functions: imlevel=1 only for functions found on a class '
-              'under class verification, imlevel 0 otherwise: %s' % det,
-              construct='imlevel', node=e)
-    fm = find_all(e, 'meth = fromMethod(attr, iface, name)', 'exec')
-    okm = len(fm) == 1
-    if okm:
-        g = fm[0][0].parent
-        okm = isinstance(g, ast.If) and match(
-            'isinstance(attr, MethodTypes) and type(attr.__func__) is FunctionType',
-            g.test) is not None
-    rep.check('R17.3', 'verify._verify_element', okm,
-              'bound methods are described through fromMethod (self stripped)',
-              construct='method', node=e)
-    inc = find_all(e, '_incompat($$a)')
-    oki = len(inc) == 1 and match(
-        '_incompat(desc.getSignatureInfo(), meth.getSignatureInfo())', inc[0][0]) is not None
-    rep.check('R17.3', 'verify._verify_element', oki,
-              '_incompat(required = the interface description, implemented = '
-              'the candidate): %s' % [norm_src(c) for c, _ in inc],
-              construct='argument-order', node=e)
-    okr = False
-    if oki:
-        st = shared.stmt_of(inc[0][0])
-        tgt = st.targets[0].id if isinstance(st, ast.Assign) else None
-        gs = [n for n in e.body if isinstance(n, ast.If) and tgt and
-              match(tgt, n.test) is not None]
-        okr = len(gs) == 1 and any(
-            isinstance(s, ast.Raise) and match(
-                'BrokenMethodImplementation(desc, %s, attr, iface, candidate)' % tgt,
-                s.exc) is not None for s in gs[0].body)
-    rep.check('R17.3', 'verify._verify_element', okr,
-              'a non-empty incompatibility message raises '
-              'BrokenMethodImplementation', construct='raise', node=e)
-    nm = [n for n in e.body if isinstance(n, ast.If)
-          and match('not isinstance(desc, Method)', n.test) is not None]
-    rep.check('R17.3', 'verify._verify_element',
-              len(nm) == 1 and any(isinstance(s, ast.Return) for s in nm[0].body),
-              'non-method descriptions need only be present', construct='attribute',
-              node=e)
-    nc = find_all(e, 'not callable(attr)')
-    oknc = len(nc) == 1
-    if oknc:
-        g = nc[0][0].parent
-        oknc = isinstance(g, ast.If) and any(
-            isinstance(s, ast.Raise) and dotted(s.exc.func) == 'BrokenMethodImplementation'
-            for s in g.body)
-    rep.check('R17.3', 'verify._verify_element', oknc,
-              'a non-callable where a method is required is rejected',
-              construct='not-callable', node=e)
+    from ..sympath import summaries as _S, normal as _N
+    from .sem import nt as _nt
+    for fn_, vt in ((vc, 'c'), (vo, 'o')):
+        ss_ = _N(_S(fn_))
+        want = "_verify(iface, candidate, tentative, vtype='%s')" % vt
+        ok_ = bool(ss_) and all(_nt(ps.ret) == want for ps in ss_)
+        rep.check('R17.3', 'verify.' + fn_.name, ok_,
+                  "%s -> vtype '%s' (%s)" % (fn_.name, vt, sorted({_nt(ps.ret)[:60]
+                                                                  for ps in ss_})),
+                  construct='vtype', node=fn_)
+    from . import verifysem
+    verifysem.verify_element(rep, mod, 'R17.3')
 
     # ---- R17.4 ---------------------------------------------------------------
     ok = any(match('iface.namesAndDescriptions(all=True)', header_expr(n)) is not None or
